@@ -108,6 +108,10 @@ def check_system(spec, T, runs, cnt, single=False):
     good = []       # (budget iterations executed, spec, obs, x)
     for sp, obs in runs:
         ne += 1
+        if obs.get("settings_read") is not None and obs["settings_read"] != obs["settings"]:
+            fails.append(fail(sp, "settings-value", "inside its contexts the library reports the limits %s, the caller asked for %s: the "
+                              "configuration in force is not the one that was set" % (obs["settings_read"], obs["settings"]), symptom="settings"))
+        ne += 1
         exp = expected_error(sp, obs)
         if obs["err"] != exp:
             if obs["err"] is None:
@@ -522,6 +526,23 @@ def check_op(sp, T, obs_direct, obs_op, entry, debug):
     sp: the resolved spec of the direct call (limits and tolerance from the settings)."""
     fails, ne = [], 0
     spo = dict(sp, op_entry=entry, op_debug=bool(debug))
+    # the raise the property demands, from the limits the caller asked the settings to provide
+    ne += 1
+    exp = expected_error(sp, obs_direct)
+    if obs_op["err"] != exp:
+        if obs_op["err"] is None:
+            fails.append(fail(spo, "op-raises", "%s through a LinearOperator returned although %s was demanded (max_cg_iterations %s, "
+                              "max_lanczos_quadrature_iterations %s asked of the settings)" % (
+                                  entry, exp, obs_direct["settings"]["max_cg"], obs_direct["settings"]["max_lq"]), symptom="no-raise"))
+        else:
+            fails.append(fail(spo, "op-raises", "%s through a LinearOperator raised %s, expected %s" % (entry, obs_op["err"], exp or "a result"),
+                              symptom="raises"))
+        return fails, ne
+    if entry in ("_solve_tri", "inv_quad_logdet"):
+        ne += 1
+        if obs_op["err"] is None and not bool(torch.isfinite(obs_op["res"].to(F64)).all()):
+            fails.append(fail(spo, "op-finite", "%s through a LinearOperator returned non-finite values" % entry, symptom="nan-result"))
+        return fails, ne
     ne += 1
     if obs_op["err"] != obs_direct["err"]:
         fails.append(fail(spo, "op-raises", "%s (debug %s) raised %s, linear_cg with the same settings %s" % (
